@@ -20,6 +20,8 @@ class `C12.Scal`) and `Yuiv/Model/RustDense.lean` (`Ctl`, `Loop.forRange`), TRUS
       (the `try_from_csc_data(..).unwrap()` check of sortedness is NOT modelled, as in the hand model);
   `v.iter()`, `v.dim()`, `v.to_dense()` ↦ the entries, the dimension, the model's `toDense`;
   `it.enumerate()` ↦ `Csc.enumerate`;
+  target `fn:schur`: see the second half of `namespace SM` (`divide4`, `neg`, `stack`, `extend_cols`, `solve_triangular*`,
+      `from_entries`, `mul_vec`, `Tr.new`) and `SVec.sub`;
   `for x in list { … continue … }` ↦ `Loop.forList`; a lazily consumed `(lo..hi).map(|j| …)` whose closure updates a captured
       buffer and which is consumed completely, in order ↦ `Loop.mapRange` (sequential, state threaded).
 -/
@@ -50,6 +52,37 @@ def is_triang (A : C12.SpMat α) (upper : Bool) : Bool := C12.isTriang upper A
 def id (n : Nat) : C12.SpMat α := C12.idMat n
 def from_col_vecs (n : Nat) (vs : List (SVec α)) : Res (C12.SpMat α) :=
   if vs.all (fun v => v.dim == n) then ok ⟨n, vs.length, (vs.map (·.ents)).toArray⟩ else panic
+
+/-! #### target `fn:schur` (schur.rs): the functions of other files, by the value the hand model `C12` gives them -/
+
+/-- `a.divide4((k, l))`: `assert!(k <= m); assert!(l <= n)`, then the model's four blocks -/
+def divide4 (A : C12.SpMat α) (p : Nat × Nat) : Res (C12.SpMat α × C12.SpMat α × C12.SpMat α × C12.SpMat α) :=
+  if p.1 ≤ A.nrows ∧ p.2 ≤ A.ncols then ok (C12.divide4 A p.1 p.2) else panic
+/-- `-m` -/
+def neg (A : C12.SpMat α) : C12.SpMat α := C12.negMat A
+/-- `m.is_zero()`: all stored values are zero -/
+def is_zero (A : C12.SpMat α) : Bool := A.cols.all fun c => c.all fun e => C12.isZero e.2
+/-- `a.stack(b)`: `combine_blocks` asserts equal column counts -/
+def stack (A B : C12.SpMat α) : Res (C12.SpMat α) := if A.ncols = B.ncols then ok (C12.stack A B) else panic
+/-- `a.extend_cols(b)` -/
+def extend_cols (A B : C12.SpMat α) : Res (C12.SpMat α) := C12.extendCols A B
+/-- `solve_triangular(t, a, y)` / `solve_triangular_left` (triang.rs, tied to the model by `fn:triang`); `t` is `is_upper` -/
+def solve_triangular (upper : Bool) (A Y : C12.SpMat α) : Res (C12.SpMat α) := C12.solve upper A Y
+def solve_triangular_left (upper : Bool) (A Y : C12.SpMat α) : Res (C12.SpMat α) := C12.solveLeft upper A Y
+/-- `SpMat::from_entries(shape, entries)` for entries given column by column with distinct positions: every entry must lie
+inside the shape (`CooMatrix::push`); zero values are dropped; column `j` keeps its entries in the given order -/
+def from_entries (shape : Nat × Nat) (es : List (Nat × Nat × α)) : Res (C12.SpMat α) :=
+  if es.all (fun t => C12.isZero t.2.2 || (decide (t.1 < shape.1) && decide (t.2.1 < shape.2))) then
+    ok ⟨shape.1, shape.2, ((List.range shape.2).map fun j =>
+      (es.filter fun t => t.2.1 == j && !C12.isZero t.2.2).map fun t => (t.1, t.2.2)).toArray⟩
+  else panic
+/-- `&c * v` (sparse matrix × sparse vector), by value: row `i` holds the model's `mulVecAt` -/
+def mul_vec (C : C12.SpMat α) (v : SVec α) : SVec α :=
+  ⟨C.nrows, (List.range C.nrows).map fun i => (i, C12.mulVecAt C v.ents i)⟩
+/-- `Trans<R>` as the pair of its two factors; `Trans::new(f, b)` keeps the shape assertions of `Trans::append` -/
+abbrev TrPair (α : Type) := C12.SpMat α × C12.SpMat α
+def Tr.new (f b : C12.SpMat α) : Res (TrPair α) :=
+  if f.ncols = b.nrows ∧ f.nrows = b.ncols then ok (f, b) else panic
 end SM
 
 namespace SVec
@@ -58,6 +91,13 @@ def iter (v : SVec α) : List (Nat × α) := v.ents
 def to_dense (v : SVec α) : Array α := C12.toDense v.dim v.ents
 def from_sorted_entries (dim : Nat) (es : List (Nat × α)) : Res (SVec α) :=
   if es.all (fun e => decide (e.1 < dim)) then ok ⟨dim, es⟩ else panic
+/-- first stored value at index `i` (`zero` when none) -/
+def valAt (v : SVec α) (i : Nat) : α := match v.ents.find? (fun e => e.1 == i) with
+  | some e => e.2
+  | none => C12.zero
+/-- `y - x` (sparse vectors), by value: row `i` holds `y_i - x_i` (as `C12.computeSchur` stores it) -/
+def sub (y x : SVec α) : SVec α :=
+  ⟨y.dim, (List.range y.dim).map fun i => (i, C12.sub (C12.colSum y.ents i) (x.valAt i))⟩
 end SVec
 
 namespace Csc
